@@ -9,6 +9,8 @@ import itertools
 import json
 import random
 
+import numpy as np
+
 from . import common
 from .common import codes, sx, uncodes
 
@@ -113,6 +115,9 @@ def impl_oracles(text):
     if r["kind"] == "err":
         if any(p < 0 or p >= len(text) for p in r["pos"]):
             out.append(({"kind": "pos_out_of_range"}, {"input": text, "observed": r}))
+        if not r["quotes_input"]:
+            # the message shows the expression it complains about: that is the caller's string, character for character
+            out.append(({"kind": "error_does_not_quote_the_input", "ascii": text.isascii() and text.isprintable()}, {"input": text, "observed": r}))
         return r, out
     # re-print / re-parse
     p = r["printed"]
@@ -282,6 +287,19 @@ def load_corpus_cases():
     return out
 
 
+def _op_level_quote(text):
+    """an operation handed a description the parser rejects: its SyntaxError shows the caller's string, character for character"""
+    import einx
+    try:
+        common.with_alarm(20, einx.id, text, np.zeros((2,)))
+    except BaseException as e:  # noqa: BLE001
+        if common.classify_exc(e) == "SyntaxError" and getattr(e, "pos", None) is not None:
+            if ('"' + text + '"') not in str(e) and "%EXPR%" not in str(e) and len(e.pos) > 0:
+                return ({"kind": "operation_error_does_not_quote_the_input", "ascii": text.isascii() and text.isprintable()},
+                        {"input": text, "message": str(e)[:400]})
+    return None
+
+
 def run(ctx):
     rng = ctx.rng
     maxlen = 4 if ctx.tier == "quick" else 5
@@ -319,6 +337,14 @@ def run(ctx):
     for r in sres:
         if r is not None:
             ctx.report(*r)
+    # the same through an operation: rejected strings, also with leading / trailing / doubled blanks
+    bad = [t for t, (ri, _) in zip(inputs, res) if ri["kind"] == "err" and "\n" not in t and '"' not in t][: 3000]
+    rng.shuffle(bad)
+    bad = bad[: 150 if ctx.tier == "quick" else 3000]
+    bad = bad + [" " + t for t in bad[:50]] + [t + " " for t in bad[50:100]] + [t.replace(" ", "  ", 1) for t in bad[100:150] if " " in t]
+    for r in common.pmap(_op_level_quote, bad):
+        if r is not None:
+            ctx.report(*r)
     for t in corpus[:3] + struct[:3]:
         ctx.sample({"input": t})
     ctx.coverage.update({
@@ -329,7 +355,7 @@ def run(ctx):
                 "digits, tabs, braces) + every token sequence up to the bound; distinct_nontrivial = number of distinct "
                 "position-erased trees among successfully parsed inputs",
         "input_distribution": {"corpus": len(corpus), "structured": len(struct), "random": len(rnd), "exhaustive": len(exhaustive),
-                               "space_variants": len(pairs), "impl_outcomes": kinds},
+                               "space_variants": len(pairs), "impl_outcomes": kinds, "operation_level_error_quotes": len(bad)},
         "correspondence_disagreements": n_corr,
     })
 
